@@ -652,7 +652,7 @@ theorem inv6_mSet {env : Env} {ye : Nat} {s s' : Sys} {t : Nat} {th : Thread} {o
     rw [hcD]
     simp only [RunD]
     obtain ⟨hl, hnew, hres⟩ := hfirst
-    refine ⟨_, rfl, Or.inr ⟨true, sig, tag, dispOf s sig, ?_, ?_⟩⟩
+    refine ⟨_, rfl, Or.inr ⟨true, sig, tag, dispOf s sig, ?_, hq, hr, ?_⟩⟩
     · simp [plan, hl, hres]
     · rw [hnew, hres]; rfl
 
